@@ -57,7 +57,7 @@ def run(eng, rep, tier):
     else:
         s = interp.run_entry(f, RD)
         ws = [ev for ev in s.events if ev.kind == "write" and ev.attr == "sons"]
-        ok = bool(ws) and all(has_fact(ev.facts, "_get_parse_tree_sub(", True) for ev in ws)
+        ok = bool(ws) and all(has_fact(ev.facts, f.name + "(", True) for ev in ws)     # the recursive call, by its own name
         ob.decide("DOM", "C15.2", f, "commit-on-success", ok,
                   "children are assigned only where the recursive expansion returned true",
                   "children of a node are assigned before / regardless of the success of the expansion: a failed "
